@@ -326,3 +326,58 @@ fn zz06_corruption_rejected() {
     kani::cover!(e.count_ones() == 1, "single-bit error");
     kani::cover!(e.count_ones() == 2, "double-bit error");
 }
+
+// ---------------------------------------------------------------------------------------------
+// Receive side, SIXTH attempt (also intractable, kept unregistered): the function code is a CONSTANT per call site, so
+// `length_mode` resolves statically and the frame length - hence `read`, `Frame::set` and the CRC loop - is constant;
+// offset 0; only 7 data bytes and the delivered length are symbolic. Measured: 40.9 GB resident and still growing
+// after 730 s (killed). With everything else constant, the remaining suspect is that `RtuParser::parse` is RECURSIVE
+// (it calls itself from two states): recursion is unwound to the harness bound like a loop, so the whole function
+// body (CRC loop, 253-byte frame) is encoded once per level. Kani offers no per-function recursion bound. Not pursued.
+
+fn rtu_fixed_request(fc: u8) {
+    // address, 4 body bytes and the CRC trailer are symbolic; the function code is the call site's constant
+    let a: u8 = kani::any();
+    let b: [u8; 4] = kani::any();
+    let t: [u8; 2] = kani::any();
+    let s: [u8; 8] = [a, fc, b[0], b[1], b[2], b[3], t[0], t[1]];
+    let len: usize = kani::any();
+    kani::assume(len <= 8);
+    let mut buf = buffer_with(&s, len, 0);
+    let mut p = RtuParser::new_request_parser();
+    let r = p.parse(&mut buf, FrameDecodeLevel::Nothing);
+    let mut crc = 0xFFFFu16;
+    let mut i = 0;
+    while i < 6 {
+        crc = tab_crc_step(crc, s[i]);
+        i += 1;
+    }
+    let crc_ok = t[0] == crc as u8 && t[1] == (crc >> 8) as u8;
+    match r {
+        Ok(None) => assert!(len < 8, "[C06] a complete frame is decided"),
+        Ok(Some(f)) => {
+            assert!(len == 8 && crc_ok, "[C06] a frame is acted on only if it is complete and its CRC verifies");
+            let dest = if a == 0 { FrameDestination::Broadcast } else { FrameDestination::UnitId(UnitId::new(a)) };
+            assert!(f.header.destination == dest, "[C17] address 0 is broadcast, any other byte is a unit id");
+            assert!(f.payload().len() == 5 && f.payload()[0] == fc && f.payload()[1] == b[0] && f.payload()[4] == b[3], "[C06] PDU bytes");
+            assert!(begin_of(&buf) == 8, "[C06] exactly one frame is consumed");
+        }
+        Err(e) => {
+            assert!(len == 8 && !crc_ok, "[C06] a complete frame with a correct CRC is accepted");
+            assert!(matches!(e, RequestError::BadFrame(FrameParseError::CrcValidationFailure(..))), "[C06] CRC mismatch is a framing error");
+        }
+    }
+    kani::cover!(len == 8 && crc_ok && a == 0, "broadcast frame accepted");
+    kani::cover!(len == 8 && crc_ok && a != 0, "unicast frame accepted");
+    kani::cover!(len == 8 && !crc_ok && t[0] == crc as u8, "only the high CRC byte is wrong");
+    kani::cover!(len == 8 && !crc_ok && t[1] == (crc >> 8) as u8, "only the low CRC byte is wrong");
+    kani::cover!(len == 7, "one byte short");
+}
+
+//@ props: ZZ
+//@ timeout: 1200
+#[kani::proof]
+#[kani::unwind(10)]
+fn zz06_fixed_fc6() {
+    rtu_fixed_request(6);
+}
